@@ -54,7 +54,8 @@ func TestC18(t *testing.T) {
 	// (1) the ticker with the call mix the connection uses: two goroutines
 	// calling Reset (send loop's ping branch, receive loop), one toggling
 	// Pause/Resume, one consuming ticks; then Stop.
-	for round := 0; round < pick(6, 40); round++ {
+	tickerDeadlock := false
+	for round := 0; round < pick(6, 40) && !tickerDeadlock; round++ {
 		func() {
 			defer func() {
 				if rec := recover(); rec != nil {
@@ -95,6 +96,7 @@ func TestC18(t *testing.T) {
 				}
 			}()
 			if !waitOrDeadlock(r, &wg, 60*time.Second, "ticker: Reset x2, Pause/Resume", round) {
+				tickerDeadlock = true
 				return
 			}
 			close(stop)
@@ -192,14 +194,20 @@ func TestC18(t *testing.T) {
 				go func() { defer cw.Done(); conns[k%2].Close() }()
 			}
 			if !waitOrDeadlock(r, &cw, 60*time.Second, "connection: 3 concurrent Close calls", sc) {
+				res.Abandon = true // wedged: leave it behind, the teardown's own Close would hang too
 				return
 			}
-			waitOrDeadlock(r, &wg, 60*time.Second, "connection: API callers after Close", sc)
+			if !waitOrDeadlock(r, &wg, 60*time.Second, "connection: API callers after Close", sc) {
+				res.Abandon = true
+			}
 		})
 		if res.Panic != "" {
 			r.Violate("C18/connection-panic", res.Panic, sc)
 		}
 		r.Case(sc.Name, true, "connection-stress")
+		if res.Abandon {
+			break // the deadlock is reported; further rounds would only repeat it
+		}
 	}
 	r.Sample(map[string]string{"ticker": "2 goroutines x 300 Reset, 1 goroutine Pause/Resume, ticks consumed, then Stop",
 		"connection": "keepalive ping interval = packet period, Send/Recv/SetTimeout from several goroutines, 3 concurrent Close"})
